@@ -7,7 +7,8 @@ sys.path.insert(0, os.path.join(os.path.dirname(os.path.abspath(__file__)), '..'
 from govc.ir import Program
 from govc.symex import cfg_of
 prog = Program(sys.argv[1])
-for f in sorted(glob.glob('/repo/**/zz_verif_contracts.go', recursive=True)):
+REPO = os.environ.get('VERIF_REPO', '/repo')
+for f in sorted(glob.glob(REPO + '/**/zz_verif_contracts.go', recursive=True)):
     lines = open(f).read().split('\n')
     out = []
     cur = None
@@ -57,3 +58,55 @@ for f in sorted(glob.glob('/repo/**/zz_verif_contracts.go', recursive=True)):
     if n_add:
         open(f, 'w').write('\n'.join(out))
         print('%s: %d loops marked complete' % (f, n_add))
+
+# second pass: loops of functions under contract that have no `loop k` stanza at all get one holding only the clause
+def loop_ok(fn, cfg, h, l):
+    for b in l['body']:
+        if b == h:
+            continue
+        for s_ in fn['blocks'][b]['succs']:
+            if s_ in l['body']:
+                continue
+            tb = fn['blocks'][s_]
+            if tb['succs'] or not tb['instrs'] or tb['instrs'][-1]['op'] not in ('Return', 'Panic'):
+                return False
+    return True
+
+
+for f in sorted(glob.glob(REPO + '/**/zz_verif_contracts.go', recursive=True)):
+    lines = open(f).read().split('\n')
+    # blocks: index of `//@ func` line -> (name, last line index of its clause block)
+    out = []
+    i = 0
+    n_add = 0
+    while i < len(lines):
+        ln = lines[i]
+        m = re.match(r'\s*//@\s*func\s+(\S+)', ln)
+        out.append(ln)
+        i += 1
+        if not m:
+            continue
+        cur = m.group(1)
+        have = set()
+        while i < len(lines) and re.match(r'\s*//@\s{2,}\S', lines[i]):
+            mm = re.match(r'\s*//@\s+loop\s+(\d+)\s*$', lines[i])
+            if mm:
+                have.add(int(mm.group(1)))
+            out.append(lines[i])
+            i += 1
+        key = prog.resolve(cur)
+        if key not in prog.funcs or not prog.funcs[key]['blocks'] or cur.startswith('iface:'):
+            continue
+        cfg = cfg_of(prog, key)
+        fn = prog.funcs[key]
+        for h, l in sorted(cfg['loops'].items(), key=lambda x: x[1]['ordinal']):
+            k = l['ordinal']
+            if k in have:
+                continue
+            if loop_ok(fn, cfg, h, l):
+                out.append('//@   loop %d' % k)
+                out.append('//@     complete [all_iterations_no_early_exit]')
+                n_add += 1
+    if n_add:
+        open(f, 'w').write('\n'.join(out))
+        print('%s: %d loops without stanza marked complete' % (f, n_add))
